@@ -597,8 +597,51 @@ fn write_if_changed(path: &Path, content: &str) {
     std::fs::write(path, content).unwrap();
 }
 
+/// `zvt2coq --scan <crate name> <src dir> <out json>`: layouts of an arbitrary crate (the randomly
+/// generated derive_gen programs of C12) as JSON only.
+fn scan_only(args: &[String]) {
+    let (krate, root, out) = (&args[2], PathBuf::from(&args[3]), PathBuf::from(&args[4]));
+    let mut w = World::default();
+    w.aliases.insert("Llv".into(), "(LLlv 2)".into());
+    w.aliases.insert("Lllv".into(), "(LLlv 3)".into());
+    let mut files = Vec::new();
+    walk(&root, &mut files);
+    for f in files {
+        let src = std::fs::read_to_string(&f).unwrap();
+        match syn::parse_file(&src) {
+            Ok(ast) => scan_items(&mut w, module_of(krate, &root, &f), &ast.items, &f),
+            Err(e) => w.unrecognised.push(format!("{}: does not parse: {e}", f.display())),
+        }
+    }
+    let mut j = String::new();
+    j.push_str("{\"structs\":[");
+    j.push_str(
+        &w.structs
+            .iter()
+            .map(|s| {
+                format!(
+                    "{{\"name\":\"{}\",\"control\":{},\"debug\":{},\"fields\":{}}}",
+                    s.abs,
+                    s.control.map(|(c, i)| format!("[{},{}]", c, i)).unwrap_or("null".into()),
+                    s.has_debug,
+                    fields_json(&w, s)
+                )
+            })
+            .collect::<Vec<_>>()
+            .join(",\n"),
+    );
+    j.push_str(&format!(
+        "],\n\"unrecognised\":[{}]}}\n",
+        w.unrecognised.iter().map(|u| format!("\"{}\"", u.replace('\\', "/").replace('"', "'"))).collect::<Vec<_>>().join(",")
+    ));
+    std::fs::write(out, j).unwrap();
+}
+
 fn main() {
     let args: Vec<String> = std::env::args().collect();
+    if args.get(1).map(|s| s == "--scan").unwrap_or(false) {
+        return scan_only(&args);
+    }
     let repo = PathBuf::from(args.get(1).map(|s| s.as_str()).unwrap_or("/repo"));
     let verif = PathBuf::from(args.get(2).map(|s| s.as_str()).unwrap_or("/verif"));
     let mut w = World::default();
